@@ -45,7 +45,9 @@ func (o WOp) String() string {
 }
 
 // malformed patterns: each is outside the documented grammar.
-var malformed = []string{"", "a", "a.b", "/{", "/{}", "/*{}", "/a{x}b", "/{x}{y}", "/*{x}/*{y}", "a.*{x}/", ".a/", "a..b/", "-a/", "a-/", "/a/{x", "/a/*", "/a/*{x", "a.b-/x", "/{x}*{y}", "/a/{x}/*{y}/*{z}", "1.2/"}
+var malformed = []string{"", "a", "a.b", "/{", "/{}", "/*{}", "/a{x}b", "/{x}{y}", "/*{x}/*{y}", "a.*{x}/", ".a/", "a..b/", "-a/", "a-/", "/a/{x", "/a/*", "/a/*{x", "a.b-/x", "/{x}*{y}", "/a/{x}/*{y}/*{z}", "1.2/",
+	// a '*' that is not followed by '{' opens no wildcard
+	"/a/*xb}", "/*ab}", "/a/*xb}/c", "/a/b*xc}"}
 
 // WOut is the observable result of a write operation.
 type WOut struct {
